@@ -242,6 +242,7 @@ def replay(ctx, data):
 # the same environment as Proofs/StructStatic.lean (Props/C08Struct.lean): both define `Trees.enc_cursor`.  The module is therefore built
 # and audited on its own (own audit file lean/Audit/C08Nested.lean); every theorem is recorded as an obligation of C08 like the others.
 NESTED_TARGET = "OdxVerif.Props.C08Nested"
+EXTRA_LEAN_TARGETS = [NESTED_TARGET]      # built by setup.sh (harness/targets.py), audited by audit_nested below
 NESTED_THEOREMS = ["OdxVerif.Codec." + t for t in ["C08_static_length_nested_partial", "C08_static_value_nested", "C08_fields_no_static_length",
                                                     "C08_field_kinds_none", "C08_required_iff_not_omittable", "C08_required_nested",
                                                     "C08_required_nested_depth", "C08_not_required_nested", "static_length_nested",
